@@ -3,7 +3,8 @@ from .. import common, gen, mergecorr, oracles, t2
 from . import base
 
 THEOREMS = ['C03_constants', 'C03_binary', 'C03_winner', 'C03_metadata', 'C03_container_priority_applies_below', 'C03_priorities_refine',
-            'C03_every_leaf_path_latest_of_highest', 'C03_merge_is_prioritised_update', 'C03_prediction_sound', 'C03_document_prediction_sound', 'C03_update_is_pointwise', 'C03_evaluated_config', 'C03_no_lists_no_side_condition', 'C03_side_condition_document_by_document']
+            'C03_every_leaf_path_latest_of_highest', 'C03_merge_is_prioritised_update', 'C03_prediction_sound', 'C03_document_prediction_sound', 'C03_update_is_pointwise', 'C03_evaluated_config', 'C03_no_lists_no_side_condition', 'C03_side_condition_document_by_document',
+            'C03_metadata_refines', 'C03_metadata_keys_at_every_meeting', 'C03_metadata_forgets_to_priorities', 'C03_metadata_prediction_sound']
 
 
 def in_domain(docs):
@@ -168,7 +169,7 @@ def spec_p_corr(rep, rng, n):
     prof_new = gen.Profile(p_tag=0.35, tags=gen.PRIO_TAGS + ['!new', '!unsafe'], p_seq=0.0, p_map=0.55, meta=0.2, p_empty=0.05)   # !new / !unsafe marks are inside the class
     items, shown, ditems = [], [], []
     for i in range(n):
-        docs = gen_three_stage(rng) if i % 4 == 0 else gen.gen_history(rng, prof_new if i % 4 == 1 else prof, 2, 5)
+        docs = gen_three_stage(rng) if i % 4 == 0 else (gen_meta_history(rng) if i % 8 == 6 else gen.gen_history(rng, prof_new if i % 4 == 1 else prof, 2, 5))
         if i % 2 == 1:
             docs = [add_lists(d, rng) for d in docs]        # lists as values (whole lists with one priority)
         it = spec_items(docs)
@@ -191,6 +192,13 @@ def spec_p_corr(rep, rng, n):
                not bad and not errors_ and not errors2 and not errors3 and ninc > 0, (f'{len(bad)} disagreements, e.g. {shown[bad[0]]}' if bad else '') + (errors_[0]['log'][-400:] if errors_ else ''))
     for i in badv[:3]:
         rep.violation('the merged values differ from the prioritised update (the latest writer of highest priority) on mapping documents with priority tags', dict(oracle='upd_p spec', input=shown[i]))
+    # ... and the metadata mapping of every node (C03_metadata_prediction_sound): {**loser, **survivor} at every meeting
+    mhdr = 'From AY Require Import Model.Eq Spec.Update Spec.UpdateP Spec.UpdatePM Proofs.MergePrio Proofs.MergePrioMeta Proofs.PrioClass Proofs.PrioMetaLoad.\nOpen Scope Z_scope.\n'
+    mchk = 'fun c : list node * option node => match predict_meta (fst c), snd c with Some d, Some r => mp_eqb d (merase r) | Some _, None => false | None, _ => true end'
+    mbad, e7, _, _ = common.run_case_files('c03m', mhdr, items, mchk, shard=150)
+    rep.oblige(f'T3 correspondence fold of Spec.UpdatePM.upd_pm = Builder.build on the same {ninc} histories: values, priorities AND the user metadata of every node',
+               not mbad and not e7 and ninc > 0, (f'{len(mbad)} disagreements, e.g. {shown[mbad[0]]}' if mbad else '') + (e7[0]['log'][-400:] if e7 else ''))
+    rep.extra.setdefault('correspondence', []).append(dict(label='upd_pm spec (metadata)', cases=len(items), in_class=ninc, disagreements=len(mbad)))
     # the same from the DOCUMENT down (C03_document_prediction_sound): the prediction is computed from the tags written in the text, so it also
     # covers how the loader spreads a container's priority
     dchk, dfull, dcls, hdr2 = DOC_VALS, DOC_FULL, DOC_INCLASS, DOC_HDR
